@@ -99,6 +99,7 @@ def make_scenario(spec, seed, idx):
     return scen
 
 
+@asmsim.with_fallback
 def run_scenario(scen, keep_events=False):
     res = core.Result()
     log = core.EventLog(keep=300 if keep_events else 0)
@@ -117,7 +118,7 @@ def run_scenario(scen, keep_events=False):
     for run in scen['runs']:
         cwd = run['cwd']
         main = tree['main'] if run['main_abs'] else posixpath.relpath(tree['main'], cwd)
-        fs = SimFS(files, list(tree['dirs']) + [cwd, '/w/out'], cwd=cwd, faults=copy.deepcopy(scen.get('fs_faults') or []))
+        fs = asmsim.make_fs(files, list(tree['dirs']) + [cwd, '/w/out'], cwd=cwd, faults=copy.deepcopy(scen.get('fs_faults') or []))
         comp = run['compress']
         cflag = 'c' if comp else 'nc'
         if run['via'] == 'api':
